@@ -50,9 +50,29 @@ pub fn strategy(max_ticks: usize) -> impl Strategy<Value = Case> {
             .prop_map(|(present, conn, bps, rtt)| LinkIn { present, conn, bps, rtt });
         // regimes: a tick is usually a repeat of the previous one with small changes, so that
         // 15-tick streaks and 2-tick delay runs are common
-        vec((vec(link, n as usize), 1u8..20), 1..(max_ticks / 4).max(2)).prop_map(move |blocks| {
+        // a share of the blocks parks one link on (or a hair beside) one of the two share lines: the total is kept,
+        // link j gets line + off/10 permille of it, the others share the rest equally
+        let park = prop::option::weighted(0.25, (any::<u8>(), any::<bool>(), prop_oneof![Just(0i16), Just(-1), Just(1), Just(5), Just(9), -12i16..25]));
+        vec((vec(link, n as usize), 1u8..20, park), 1..(max_ticks / 4).max(2)).prop_map(move |blocks| {
             let mut ticks = Vec::new();
-            for (ins, rep) in blocks {
+            for (mut ins, rep, park) in blocks {
+                if let Some((j, leave, off)) = park
+                    && n >= 2
+                {
+                    let j = j as usize % n as usize;
+                    let mut total: u64 = ins.iter().map(|l| l.bps as u64).sum();
+                    if total < 200_000 {
+                        total = 1_000_000;
+                    }
+                    let total = total.min(40_000_000);
+                    let line_pm10 = (if leave { 7500 } else { 2500 }) / n as i64 + off as i64; // tenths of a permille
+                    let mine = (total as i64 * line_pm10 / 10_000).max(0) as u64;
+                    let others = total.saturating_sub(mine) / (n as u64 - 1);
+                    for (i, l) in ins.iter_mut().enumerate() {
+                        l.present = true;
+                        l.bps = if i == j { mine as u32 } else { others as u32 };
+                    }
+                }
                 for r in 0..rep {
                     let mut t = ins.clone();
                     if r > 0 {
@@ -181,7 +201,11 @@ pub fn check(case: &Case, obs: &mut Obs) -> CheckResult {
                 let prev = m.prev_weak;
                 let was_weak = prev.is_some_and(|p| p.0);
                 if !was_weak && v.weak && v.reason == WeakReason::LowShare {
-                    vensure!(share_pm < 250.0 / n_conn + 1.0, "enter-threshold", "tick {ti}: entered low-share weak at share {:.2} permille, n={}", share_pm, n_conn);
+                    // "below a quarter of fair share", in real numbers (1e-6 permille for the float summation order)
+                    vensure!(share_pm < 250.0 / n_conn + 1e-6, "enter-threshold", "tick {ti}: entered low-share weak at share {:.4} permille, n={} (a quarter of fair share is {:.3})", share_pm, n_conn, 250.0 / n_conn);
+                    if share_pm > 250.0 / n_conn - 1.5 {
+                        obs.class("entered-within-1.5-permille-of-the-line");
+                    }
                     transitions += 1;
                 }
                 if let Some((true, pr)) = prev
@@ -218,7 +242,7 @@ pub fn check(case: &Case, obs: &mut Obs) -> CheckResult {
 
 pub fn run(ctx: &Ctx) -> &'static str {
     ctx.assume("per-link bitrate is written to bitrate.current_bitrate_bps and RTT baselines are built by the real RttTracker::update_estimate; connectivity changes go through mark_for_recovery / the REG3 state change");
-    ctx.assume("share thresholds are checked in real numbers: entering needs share < 250/n + 1 permille (slack for the code's integer rounding), leaving needs share >= floor(750/n) permille (the code's whole-permille threshold: 187 for 187.5 with four links, exact otherwise); the delay tier is the selected_delay_ms the classifier reports");
+    ctx.assume("share thresholds are checked in real numbers: entering needs share < 250/n permille (+1e-6 for float summation order), leaving needs share >= floor(750/n) permille (the code's whole-permille threshold: 187 for 187.5 with four links, exact otherwise); the delay tier is the selected_delay_ms the classifier reports");
     ctx.assume("the leave threshold is enforced only on transitions out of a low-share/no-traffic verdict");
     for (file, body) in ctx.replay_files() {
         if !ctx.replay_case::<Case, _>("ticks", &file, &body, check) {
